@@ -635,6 +635,9 @@ class OpenPyTranslator(PyTranslator):
         # one spelling for the transpose: np.transpose(x) and x.transpose() without axes are x.T
         if isinstance(n, ast.Call) and not n.keywords and ((core.src(n.func) in ("np.transpose", "numpy.transpose") and len(n.args) == 1) or (isinstance(n.func, ast.Attribute) and n.func.attr == "transpose" and not n.args and not (isinstance(n.func.value, ast.Name) and n.func.value.id in ("np", "numpy")))):
             n = ast.Attribute(value=n.args[0] if n.args else n.func.value, attr="T", ctx=ast.Load())
+        # ... and for the matrix product of the 1-D / 2-D operands this code base has: a @ b is np.dot(a, b)
+        if isinstance(n, ast.BinOp) and isinstance(n.op, ast.MatMult):
+            n = ast.Call(func=ast.Attribute(value=ast.Name(id="np", ctx=ast.Load()), attr="dot", ctx=ast.Load()), args=[n.left, n.right], keywords=[])
         if isinstance(n, ast.Name):
             if n.id in env:
                 return env[n.id]
